@@ -1,7 +1,454 @@
-import MontePyVerif.Model.Collection
-/-! # C06 — numbered collections never hold two objects with one number; lookups are current -/
+import MontePyVerif.Lemmas.Collection
+/-!
+# C06 — numbered collections never hold two objects with one number; lookups are current
+
+Property (fixed text, properties.jsonl): in every collection of a problem, after any sequence of
+collection operations and number assignments, no two members share a number; lookup by number
+returns the member whose current number is that number and fails for numbers no member has;
+numbers offered by `request_number`/`next_number` are free; an operation that raises
+`NumberConflictError` leaves the collection unchanged.
+
+Model: `Model/Collection.lean` (one definition per method of `NumberedObjectCollection` and the
+number setters).  The invariant `Inv` is in `Lemmas/Collection.lean`.
+Only property theorems live here; helper lemmas are in `Lemmas/Collection.lean`.
+-/
 namespace MontePyVerif.Collection
 
-theorem C06_stub : (clear ⟨true, [], [], fun _ => 0, fun _ => false⟩).2 = .ok := rfl
+/-- The only operation whose safety depends on the caller: a number assignment on a *member* is
+    checked against the collection only through the object's link to the owning problem. -/
+def Admissible (s : St) : Op → Prop
+  | .setNumber o _ => o ∈ s.objs → s.link o = true
+  | _ => True
+
+/-- In a collection owned by a problem every operation is admissible (members are always linked). -/
+theorem owned_admissible {s : St} (h : Inv s) (how : s.owned = true) (op : Op) : Admissible s op := by
+  cases op <;> simp only [Admissible]
+  exact fun hm => h.linked how _ hm
+
+/-- **C06_init** — a collection built from a list (`__init__`) satisfies the invariant whenever
+    construction succeeds (free-standing), and an owned collection starts empty. -/
+theorem C06_init (owned : Bool) (num : ObjId → Int) (os : List ObjId) (s : St)
+    (h : init owned num os = some s) (hown : owned = true → os = []) : Inv s := by
+  unfold init at h
+  split at h
+  · cases h
+  · rename_i c hc
+    cases h
+    -- generalised loop invariant of `initLoop`
+    have key : ∀ (l : List ObjId) (c0 c1 : Cache) (pre : List ObjId),
+        initLoop num l c0 = some c1 →
+        (∀ n, dget c0 n ≠ none ↔ n ∈ pre.map num) → (pre.map num).Nodup → CacheOK c0 (pre ++ l) →
+        ((pre ++ l).map num).Nodup ∧ CacheOK c1 (pre ++ l) := by
+      intro l
+      induction l with
+      | nil =>
+        intro c0 c1 pre h1 _ hnd hk
+        simp only [initLoop] at h1
+        cases h1
+        exact ⟨by simpa using hnd, hk⟩
+      | cons o t ih =>
+        intro c0 c1 pre h1 hkeys hnd hk
+        simp only [initLoop] at h1
+        split at h1
+        · cases h1
+        · rename_i hnone
+          have hfresh : num o ∉ pre.map num := by
+            intro hm
+            exact (hkeys (num o)).mpr hm hnone
+          have hnd' : ((pre ++ [o]).map num).Nodup := by
+            rw [List.map_append]
+            refine List.nodup_append.mpr ⟨hnd, by simp, ?_⟩
+            intro a ha b hb
+            simp at hb
+            subst hb
+            exact fun e => hfresh (e ▸ ha)
+          have hkeys' : ∀ n, dget (dset c0 (num o) o) n ≠ none ↔ n ∈ (pre ++ [o]).map num := by
+            intro n
+            rw [List.map_append, List.mem_append]
+            have hd : ∀ (c : Cache) (k : Int) (v : ObjId) (n : Int),
+                dget (dset c k v) n ≠ none ↔ (dget c n ≠ none ∨ n = k) := by
+              intro c k v n
+              induction c with
+              | nil => simp [dset, dget]; exact eq_comm
+              | cons a t ih =>
+                obtain ⟨k', v'⟩ := a
+                simp only [dset]
+                split
+                · rename_i hk'
+                  subst hk'
+                  simp only [dget]
+                  by_cases e : k' = n
+                  · simp [e]
+                  · have e' : n ≠ k' := fun x => e x.symm
+                    simp [e, e']
+                · simp only [dget]
+                  by_cases e : k' = n
+                  · simp [e]
+                  · simp [e, ih]
+            rw [hd, hkeys n]
+            simp
+          have hk' : CacheOK (dset c0 (num o) o) ((pre ++ [o]) ++ t) := by
+            have : (pre ++ [o]) ++ t = pre ++ o :: t := by simp
+            rw [this]
+            exact hk.dset _ (by simp)
+          have := ih (dset c0 (num o) o) c1 (pre ++ [o]) h1 hkeys' hnd' hk'
+          simpa using this
+    have := key os [] c [] hc (by simp [dget]) (by simp) (by intro p hp; cases hp)
+    refine ⟨by simpa using this.1, by simpa using this.2, ?_⟩
+    intro how x hx
+    have := hown how
+    subst this
+    cases hx
+
+/-- **C06_step** — every admissible operation preserves the invariant, *also when it raises*
+    (the state component is the state at the raise point). -/
+theorem C06_step (s : St) (op : Op) (h : Inv s) (hadm : Admissible s op) : Inv (step s op).1 := by
+  cases op with
+  | append o => exact append_inv h o
+  | setitem o => exact append_inv h o
+  | appendRenumber o k => exact appendRenumber_inv h o k
+  | extend os => exact extend_inv h os
+  | iadd os => exact iadd_inv h os
+  | remove o => exact remove_inv h o
+  | pop p => exact pop_inv h p
+  | delitem n => exact delitem_inv h n
+  | clear => exact clear_inv h
+  | setNumber o n => exact setNumber_inv h o n hadm
+  | get n => exact h.of_core (get_core s n) (get_cacheOK s n h.cache)
+  | getitem n =>
+    show Inv (getitem s n).1
+    unfold getitem
+    have i1 : Inv (get s n).1 := h.of_core (get_core s n) (get_cacheOK s n h.cache)
+    split
+    · rename_i s1 heq
+      have : s1 = (get s n).1 := by rw [heq]
+      exact this ▸ i1
+    · rename_i s1 o heq
+      have : s1 = (get s n).1 := by rw [heq]
+      exact this ▸ i1
+  | contains o => exact h
+  | numbers =>
+    exact h.of_core ⟨rfl, rfl, rfl, rfl⟩ (refresh_cacheOK _ _ _ _ (fun _ h => h) h.cache)
+  | keys => exact h
+  | items => exact h
+  | len => exact h
+  | checkNumber n => exact h.of_core (checkNumber_core s n) (checkNumber_cacheOK s n h.cache)
+  | requestNumber a k => exact h.of_core (requestNumber_core s a k) (requestNumber_cacheOK s a k h.cache)
+  | nextNumber k => exact h.of_core (nextNumber_core s k) (nextNumber_cacheOK s k h.cache)
+  | slice a b =>
+    exact h.of_core (sliceLoop_core _ s a []) (sliceLoop_cacheOK _ s a [] h.cache)
+
+/-- no operation changes whether the collection is owned by a problem -/
+theorem step_owned (s : St) (op : Op) : (step s op).1.owned = s.owned := by
+  cases op with
+  | append o => 
+    show (append s o).1.owned = _
+    unfold append; split; rename_i s1 f heq
+    have : s1 = (inNumbers s (s.num o)).1 := by rw [heq]
+    subst this
+    split
+    · exact (conflict_core _ _).owned
+    · rfl
+  | setitem o =>
+    show (append s o).1.owned = _
+    unfold append; split; rename_i s1 f heq
+    have : s1 = (inNumbers s (s.num o)).1 := by rw [heq]
+    subst this
+    split
+    · exact (conflict_core _ _).owned
+    · rfl
+  | appendRenumber o k =>
+    show (appendRenumber s o k).1.owned = _
+    have app : ∀ (t : St) (x : ObjId), (append t x).1.owned = t.owned := by
+      intro t x
+      unfold append; split; rename_i s1 f heq
+      have : s1 = (inNumbers t (t.num x)).1 := by rw [heq]
+      subst this
+      split
+      · exact (conflict_core _ _).owned
+      · rfl
+    unfold appendRenumber
+    split
+    · rfl
+    · simp only []
+      split
+      · rw [app]
+      · split
+        · split
+          · split
+            · rw [app, (setNumber_objs _ _ _).2.2, (requestNumber_core _ _ _).owned, app]
+            · rw [app, (setNumber_objs _ _ _).2.2, (requestNumber_core _ _ _).owned, app]
+          · rw [(setNumber_objs _ _ _).2.2, (requestNumber_core _ _ _).owned, app]
+        · rw [(requestNumber_core _ _ _).owned, app]
+  | extend os =>
+    show (extend s os).1.owned = _
+    unfold extend
+    split
+    · rename_i s1 n heq
+      have : s1 = (checkAll true s os).1 := by rw [heq]
+      subst this
+      exact (conflict_core _ _).owned
+    · rename_i s1 heq
+      have : s1 = (checkAll true s os).1 := by rw [heq]
+      subst this
+      rfl
+  | iadd os =>
+    show (iadd s os).1.owned = _
+    unfold iadd
+    split
+    · rename_i s1 n heq
+      have : s1 = (checkAll false s os).1 := by rw [heq]
+      subst this
+      exact (conflict_core _ _).owned
+    · rename_i s1 heq
+      have : s1 = (checkAll false s os).1 := by rw [heq]
+      subst this
+      rfl
+  | remove o => show (remove s o).1.owned = _; unfold remove; split <;> rfl
+  | pop p =>
+    show (pop s p).1.owned = _
+    unfold pop
+    split
+    · rfl
+    · split <;> rfl
+  | delitem n =>
+    show (delitem s n).1.owned = _
+    unfold delitem
+    split
+    · rename_i s1 heq
+      have : s1 = (get s n).1 := by rw [heq]
+      exact this ▸ (get_core s n).owned
+    · rename_i s1 o heq
+      have : s1 = (get s n).1 := by rw [heq]
+      subst this
+      exact (get_core s n).owned
+  | clear => rfl
+  | setNumber o n => exact (setNumber_objs s o n).2.2
+  | get n => exact (get_core s n).owned
+  | getitem n =>
+    show (getitem s n).1.owned = _
+    unfold getitem
+    split
+    · rename_i s1 heq
+      have : s1 = (get s n).1 := by rw [heq]
+      exact this ▸ (get_core s n).owned
+    · rename_i s1 o heq
+      have : s1 = (get s n).1 := by rw [heq]
+      exact this ▸ (get_core s n).owned
+  | contains o => rfl
+  | numbers => rfl
+  | keys => rfl
+  | items => rfl
+  | len => rfl
+  | checkNumber n => exact (checkNumber_core s n).owned
+  | requestNumber a k => exact (requestNumber_core s a k).owned
+  | nextNumber k => exact (nextNumber_core s k).owned
+  | slice a b => exact (sliceLoop_core _ s a []).owned
+
+/-- **C06_reachable** — in a collection owned by a problem the invariant holds after *every* finite
+    history of operations (any operations, any arguments, including the failing ones). -/
+theorem C06_reachable (s : St) (ops : List Op) (h : Inv s) (how : s.owned = true) : Inv (run s ops) := by
+  induction ops generalizing s with
+  | nil => exact h
+  | cons op t ih =>
+    show Inv (run (step s op).1 t)
+    exact ih _ (C06_step s op h (owned_admissible h how op)) (by rw [step_owned]; exact how)
+
+/-- histories all of whose number assignments are admissible at the state they are applied in -/
+def AdmissibleRun : St → List Op → Prop
+  | _, [] => True
+  | s, op :: t => Admissible s op ∧ AdmissibleRun (step s op).1 t
+
+/-- **C06_free_standing_partial** — for any collection (owned or free-standing) the invariant holds
+    along every history that never assigns a number to an unlinked member.  The excluded class is
+    exactly `Admissible`: `setNumber` on a member whose object has no link to a problem owning the
+    collection. -/
+theorem C06_free_standing_partial (s : St) (ops : List Op) (h : Inv s) (hadm : AdmissibleRun s ops) :
+    Inv (run s ops) := by
+  induction ops generalizing s with
+  | nil => exact h
+  | cons op t ih => exact ih _ (C06_step s op h hadm.1) hadm.2
+
+/-- **C06_free_standing_refuted** — without that hypothesis the full statement is false of the code:
+    two members of a free-standing collection, the second renumbered to the first one's number. -/
+theorem C06_free_standing_refuted :
+    ∃ (s : St) (op : Op), Inv s ∧ ¬ Inv (step s op).1 := by
+  refine ⟨⟨false, [0, 1], [], fun o => if o = 0 then 1 else 2, fun _ => false⟩, .setNumber 1 1, ?_, ?_⟩
+  · exact ⟨by decide, (by intro p hp; cases hp), (by intro h; cases h)⟩
+  · intro h
+    have := h.nodup
+    revert this
+    decide
+
+/-- **C06_get** — look-up by number returns exactly the member whose current number it is. -/
+theorem C06_get (s : St) (n : Int) (o : ObjId) (h : Inv s) :
+    (get s n).2 = some o ↔ (o ∈ s.objs ∧ s.num o = n) :=
+  ⟨get_some h.cache, fun ⟨ho, hn⟩ => get_of_mem h.nodup h.cache ho hn⟩
+
+/-- look-up fails exactly for the numbers no member has -/
+theorem C06_get_none (s : St) (n : Int) (h : Inv s) : (get s n).2 = none ↔ n ∉ s.objs.map s.num := by
+  constructor
+  · intro hn hm
+    obtain ⟨o, ho, hoe⟩ := List.mem_map.mp hm
+    rw [get_of_mem h.nodup h.cache ho hoe] at hn
+    cases hn
+  · intro hn
+    cases hg : (get s n).2 with
+    | none => rfl
+    | some o =>
+      have := get_some h.cache hg
+      exact absurd (List.mem_map.mpr ⟨o, this.1, this.2⟩) hn
+
+/-- **C06_request_free** — a number offered by `request_number` is not in use (no invariant needed). -/
+theorem C06_request_free (s : St) (a k n : Int) (h : (requestNumber s a k).2 = .int n) :
+    n ∉ s.objs.map s.num ∧ (requestNumber s a k).1.objs = s.objs ∧ (requestNumber s a k).1.num = s.num :=
+  ⟨requestNumber_free h, (requestNumber_core s a k).objs, (requestNumber_core s a k).num⟩
+
+/-- **C06_next_free** — a number offered by `next_number` is not in use. -/
+theorem C06_next_free (s : St) (k n : Int) (h : (nextNumber s k).2 = .int n) :
+    n ∉ s.objs.map s.num ∧ (nextNumber s k).1.objs = s.objs ∧ (nextNumber s k).1.num = s.num :=
+  ⟨nextNumber_free h, (nextNumber_core s k).objs, (nextNumber_core s k).num⟩
+
+/-- **C06_request_terminates** — `request_number` always returns (the fuel of the model's loop,
+    `len + 1`, is sufficient): for `step ≠ 0` it returns a number, for `step = 0` it raises
+    `ValueError` (the repaired code; before the repair the call did not return on a taken number). -/
+theorem C06_request_terminates (s : St) (a k : Int) :
+    (requestNumber s a k).2 ≠ .hang ∧
+    (k ≠ 0 → ∃ n, (requestNumber s a k).2 = .int n) ∧
+    (k = 0 → (requestNumber s a k).2 = .err .valueError) := by
+  refine ⟨requestNumber_not_hang s a k, ?_, ?_⟩
+  · intro hk
+    have hh := requestNumber_not_hang s a k
+    unfold requestNumber at hh ⊢
+    simp only [hk, if_false] at hh ⊢
+    split
+    · exact ⟨_, rfl⟩
+    · rename_i s1 heq
+      simp [heq] at hh
+  · intro hk
+    simp [requestNumber, hk]
+
+/-- **C06_conflict_noop** — an operation that raises `NumberConflictError` leaves the members, their
+    order and every member's number as they were; with `C06_get` (look-ups are a function of members
+    and numbers under `Inv`, which `C06_step` preserves) every look-up answers as before. -/
+theorem C06_conflict_noop (s : St) (op : Op) (h : (step s op).2 = .err .numberConflict) :
+    (step s op).1.objs = s.objs ∧ (step s op).1.num = s.num := by
+  have fromCore : ∀ {s' : St}, Core s s' → s'.objs = s.objs ∧ s'.num = s.num := fun c => ⟨c.objs, c.num⟩
+  cases op with
+  | append o => exact fromCore (append_err_core (by show (append s o).2 ≠ _; rw [show (append s o).2 = _ from h]; simp))
+  | setitem o => exact fromCore (append_err_core (by show (append s o).2 ≠ _; rw [show (append s o).2 = _ from h]; simp))
+  | appendRenumber o k =>
+    change (appendRenumber s o k).2 = _ at h
+    show (appendRenumber s o k).1.objs = _ ∧ (appendRenumber s o k).1.num = _
+    unfold appendRenumber at h ⊢
+    split
+    · exact ⟨rfl, rfl⟩
+    · rename_i hno
+      simp only [hno, if_false] at h
+      generalize hs0 : ({ s with link := fun x => if x = o ∧ s.owned = true then true else s.link x } : St) = s0 at h ⊢
+      have hobj0 : s0.objs = s.objs := by rw [← hs0]
+      have hnum0 : s0.num = s.num := by rw [← hs0]
+      simp only [] at h ⊢
+      split
+      · rename_i hok; simp [hok] at h
+      · rename_i hnok
+        simp only [hnok, if_false] at h
+        have c1 := append_err_core hnok
+        have c2 := requestNumber_core (append s0 o).1 (s.num o) k
+        split
+        · rename_i n hn
+          simp only [hn] at h
+          -- the offered number is free, the object is not a member: the second append cannot conflict
+          have hfree : n ∉ (append s0 o).1.objs.map (append s0 o).1.num := by
+            apply requestNumber_free (a := s.num o) (k := k)
+            cases hr : (requestNumber (append s0 o).1 (s.num o) k).2 <;> simp [hr, Out.int?] at hn ⊢
+            exact hn
+          have ho2 : o ∉ (requestNumber (append s0 o).1 (s.num o) k).1.objs := by
+            rw [c2.objs, c1.objs, hobj0]; exact hno
+          split
+          · rename_i hok3
+            simp only [hok3, if_true] at h
+            have hnum3 := setNumber_ok_num hok3
+            have hobj3 := (setNumber_objs (requestNumber (append s0 o).1 (s.num o) k).1 o n).1
+            have hfresh : (setNumber (requestNumber (append s0 o).1 (s.num o) k).1 o n).1.num o ∉
+                (setNumber (requestNumber (append s0 o).1 (s.num o) k).1 o n).1.objs.map
+                  (setNumber (requestNumber (append s0 o).1 (s.num o) k).1 o n).1.num := by
+              rw [hnum3, hobj3, map_update_of_not_mem _ _ _ _ ho2, c2.objs, c2.num]
+              simpa using hfree
+            have hok4 := append_ok_of_fresh hfresh
+            simp [hok4] at h
+          · rename_i hnok3
+            have c3 := setNumber_err_core hnok3
+            exact ⟨by rw [c3.objs, c2.objs, c1.objs, hobj0], by rw [c3.num, c2.num, c1.num, hnum0]⟩
+        · exact ⟨by rw [c2.objs, c1.objs, hobj0], by rw [c2.num, c1.num, hnum0]⟩
+  | extend os =>
+    change (extend s os).2 = _ at h
+    show (extend s os).1.objs = _ ∧ (extend s os).1.num = _
+    unfold extend at h ⊢
+    split
+    · rename_i s1 n heq
+      have e1 : s1 = (checkAll true s os).1 := by rw [heq]
+      subst e1
+      exact fromCore (Core.trans (b := (checkAll true s os).1) ⟨rfl, rfl, rfl, rfl⟩ (conflict_core _ _))
+    · rename_i s1 heq
+      simp [heq] at h
+  | iadd os =>
+    change (iadd s os).2 = _ at h
+    show (iadd s os).1.objs = _ ∧ (iadd s os).1.num = _
+    unfold iadd at h ⊢
+    split
+    · rename_i s1 n heq
+      have e1 : s1 = (checkAll false s os).1 := by rw [heq]
+      subst e1
+      exact fromCore (Core.trans (b := (checkAll false s os).1) ⟨rfl, rfl, rfl, rfl⟩ (conflict_core _ _))
+    · rename_i s1 heq
+      simp [heq] at h
+  | remove o => change (remove s o).2 = _ at h; unfold remove at h; split at h <;> simp at h
+  | pop p =>
+    change (pop s p).2 = _ at h
+    unfold pop at h
+    split at h
+    · simp at h
+    · split at h <;> simp at h
+  | delitem n => change (delitem s n).2 = _ at h; unfold delitem at h; split at h <;> simp at h
+  | clear => simp [step, clear] at h
+  | setNumber o n =>
+    exact fromCore (setNumber_err_core (by show (setNumber s o n).2 ≠ _; rw [show (setNumber s o n).2 = _ from h]; simp))
+  | get n => simp [step] at h
+  | getitem n => change (getitem s n).2 = _ at h; unfold getitem at h; split at h <;> simp at h
+  | contains o => simp [step] at h
+  | numbers => simp [step] at h
+  | keys => simp [step] at h
+  | items => simp [step] at h
+  | len => simp [step] at h
+  | checkNumber n => exact fromCore (checkNumber_core s n)
+  | requestNumber a k => exact fromCore (requestNumber_core s a k)
+  | nextNumber k => exact fromCore (nextNumber_core s k)
+  | slice a b => simp [step, slice] at h
+
+/-! ### Non-vacuity: concrete non-trivial states and histories meeting the hypotheses -/
+
+/-- an owned collection with two members and a stale cache entry satisfies `Inv` … -/
+def exState : St :=
+  { owned := true, objs := [4, 7], cache := [(9, 7), (1, 4)],
+    num := fun o => if o = 4 then 1 else if o = 7 then 2 else 1, link := fun o => o = 4 ∨ o = 7 }
+
+example : Inv exState :=
+  ⟨by decide, by intro p hp; simp [exState] at hp; rcases hp with rfl | rfl <;> simp [exState],
+   by intro _ x hx; simp [exState] at hx ⊢; exact hx⟩
+
+/-- … a conflict is really reachable from it (hypothesis of `C06_conflict_noop`) … -/
+example : (step exState (.append 9)).2 = .err .numberConflict := by decide
+example : (step exState (.setNumber 7 1)).2 = .err .numberConflict := by decide
+example : (step exState (.extend [11, 12])).2 = .err .numberConflict := by decide
+/-- … `request_number` really offers numbers and really skips taken ones … -/
+example : (requestNumber exState 1 1).2 = .int 3 := by decide
+example : (nextNumber exState 5).2 = .int 7 := by decide
+/-- … and the free-standing partial theorem has admissible non-trivial histories. -/
+example : AdmissibleRun { exState with owned := false, link := fun _ => false }
+    [.append 9, .pop 0, .setNumber 4 2, .extend [4]] := by
+  refine ⟨trivial, trivial, ?_, trivial, trivial⟩
+  intro hm
+  exact absurd hm (by decide)
 
 end MontePyVerif.Collection
